@@ -289,6 +289,7 @@ def run_check(modname, tier="quick"):
         by_sig.setdefault(sig_key(v["violation"]), []).append(v)
     known_hits = {}
     new_paths = []
+    extra_sigs = 0
     rc = 0
     for sk, vs in sorted(by_sig.items()):
         v = vs[0]
@@ -296,8 +297,14 @@ def run_check(modname, tier="quick"):
         if k is not None:
             known_hits.setdefault(k["id"], [k, 0])[1] += len(vs)
             continue
-        sc, tp, vio = minimise(mod, v["scenario"], v["tape"], v["violation"],
-                               budget_s=float(os.environ.get("VERIF_MIN_S", "45")))
+        if len(new_paths) >= 8:
+            extra_sigs = extra_sigs + 1
+            continue
+        if len(new_paths) < 3:
+            sc, tp, vio = minimise(mod, v["scenario"], v["tape"], v["violation"],
+                                   budget_s=float(os.environ.get("VERIF_MIN_S", "45")))
+        else:
+            sc, tp, vio = v["scenario"], v["tape"], v["violation"]
         path = write_replay(mod, base_seed, sc, tp, vio)
         ok, outp = _verify_in_fresh_interpreter(modname, path)
         if not ok:
@@ -315,6 +322,8 @@ def run_check(modname, tier="quick"):
         print("VIOLATION property=%s replay=%s" % (mod.PROPERTY, path))
         new_paths.append(path)
         rc = 1
+    if extra_sigs:
+        print("(%d further distinct violation signatures not written out)" % extra_sigs)
     for kid, (k, n) in sorted(known_hits.items()):
         print("KNOWN-FINDING: property=%s %s (%s; seen %d times this run)"
               % (mod.PROPERTY, k["what"], kid, n))
